@@ -10,7 +10,7 @@ Engine A with proxy division (fresh quotient variable q, q*den = num, den != 0 r
    (i)  a pattern whose inverse raises for EVERY operand (generation-time raise or identically
         zero denominator):  exists x (pattern), y (dense): x*y = 1;
    (ii) run-time zero denominator:  exists x, y: den(x) = 0 /\\ x*y = 1.
-   Both are posed only for d<=2 (any pattern) and d=3 with <=4 blades (stated bound); a witness is
+   Both are posed only for d<=2 (any pattern) and d=3 with <=3 blades (stated bound; z3 answers unknown on some 4-blade patterns); a witness is
    confirmed on exact rationals through the public API before it is reported.
  Any exception other than ZeroDivisionError from inv/div/** on an enumerated pattern is a violation
  of 'for algebras of every signature and dimension'.
@@ -38,7 +38,7 @@ ASSUMPTIONS = ['coefficients are reals: identities are exact (floating-point rou
                'every claim is "for all operands whose recorded denominators are non-zero"',
                'float literals in generated code (n*s/i in the Shirokov scheme) are snapped to the nearest rational (1e-12 relative)']
 BOUNDS = {'quick': 'all (p,q,r) d<=3 (dense and sparse), d=4 dense for 3 signatures + sparse, d=5 <=5 blades, d=6,7 <=3 blades; exists-queries d<=2 all subsets, d=3 <=3 blades',
-          'thorough': 'd=4 dense all (p,q,r), d=5 <=6 blades 200 patterns, d=6,7 <=4 blades, d=8 <=2 blades; exists-queries d=3 <=4 blades'}
+          'thorough': 'd=4 dense all (p,q,r), d=5 <=6 blades 200 patterns, d=6,7 <=4 blades, d=8 <=2 blades; exists-queries d<=2 all subsets, d=3 <=3 blades (4 blades: z3 unknown, outside the bound)'}
 OUTSIDE = ['dense operands in d >= 5 (generation time / solver unknown)', 'exists-queries for dense d >= 3', 'floating-point rounding', 'complex coefficients']
 OPTS = {'rlimit': 400_000_000, 'canary_every': 8}
 CHUNKS_PER_WORKER = 12
@@ -69,7 +69,7 @@ def cases(tier, seed):
     S3 = pat.SUB(3)
     for p, q, r in pat.pqr_all(3):
         cfg = dict(p=p, q=q, r=r)
-        small = [s for s in S3 if 1 <= len(s) <= (3 if tier == 'quick' else 4)]
+        small = [s for s in S3 if 1 <= len(s) <= 3]
         for ka in rng.sample(small, 14 if tier == 'quick' else 60):
             add('inv', cfg, ka, exists=True)
         for ka in rng.sample([s for s in S3 if len(s) >= 4], 6 if tier == 'quick' else 40) + pat.FULL(3):
@@ -186,7 +186,7 @@ def run_case(desc, V):
     x = mv(alg, V, 'x', desc['ka'])
     X = coeffs(x)
     claims = []
-    small = alg.d <= 2 or (alg.d == 3 and len(desc['ka']) <= 4)
+    small = alg.d <= 2 or (alg.d == 3 and len(desc['ka']) <= 3)
     if kind == 'inv':
         ctx = sym.cur()
         n_before = len(ctx.denominators) if V.symbolic else 0
